@@ -4,7 +4,8 @@ From Coq Require Import String List Bool ZArith.
 Import ListNotations.
 Local Open Scope string_scope.
 
-Inductive mode := R | W.
+(* R read, W write, Ini initialisation of a member by the constructor of its object (CXXCtorInitializer) *)
+Inductive mode := R | W | Ini.
 
 (* skeleton of a function body as produced by tools/c11_skeleton.py *)
 Inductive sk :=
@@ -98,7 +99,7 @@ Fixpoint fields_written (s : sk) : list field :=
 
 Definition written (eps : list (string * sk)) : list field := flat_map (fun p => fields_written (snd p)) eps.
 
-Definition mode_str (m : mode) : string := match m with R => "read" | W => "write" end.
+Definition mode_str (m : mode) : string := match m with R => "read" | W => "write" | Ini => "initialisation" end.
 
 (* diagnostics; [] = fine. wr = fields some entry point writes (these must be accessed under the lock, everywhere);
    shared fields never written by an entry point are immutable after construction and may be read without the lock. *)
@@ -107,9 +108,14 @@ Fixpoint chk (wr : list field) (held : bool) (s : sk) : list string :=
   | SSkip | SRet => []
   | SAcc fn cls fld m =>
       if is_shared cls then
-        if mem_field (cls, fld) wr && negb held
-        then ["UNLOCKED " ++ mode_str m ++ " of " ++ cls ++ "::" ++ fld ++ " in " ++ fn]
-        else []
+        match m with
+        | Ini => (* constructor of a shared object inside an entry point: the object is fresh (not yet reachable by other threads);
+                  it must be published through the lock, so the constructor has to run while the lock is held (FreshProofs.v) *)
+               if held then [] else ["UNLOCKED initialisation of " ++ cls ++ "::" ++ fld ++ " (object constructed outside the lock) in " ++ fn]
+        | _ => if mem_field (cls, fld) wr && negb held
+               then ["UNLOCKED " ++ mode_str m ++ " of " ++ cls ++ "::" ++ fld ++ " in " ++ fn]
+               else []
+        end
       else if is_owned cls then []
       else ["UNCLASSIFIED class " ++ cls ++ " (member " ++ fld ++ ") accessed in " ++ fn]
   | SGlob fn name m const =>
@@ -185,7 +191,10 @@ Definition required_protected : list field :=
     ("JitAllocatorPool", "total_area_size"); ("JitAllocatorPool", "total_area_used"); ("JitAllocatorPool", "total_overhead_bytes");
     ("JitAllocatorBlock", "_flags"); ("JitAllocatorBlock", "_area_used"); ("JitAllocatorBlock", "_largest_unused_area");
     ("JitAllocatorBlock", "_search_start"); ("JitAllocatorBlock", "_search_end");
-    ("JitAllocatorBlock", "_used_bit_vector[]"); ("JitAllocatorBlock", "_stop_bit_vector[]") ].
+    ("JitAllocatorBlock", "_used_bit_vector[]"); ("JitAllocatorBlock", "_stop_bit_vector[]");
+    (* bytes of the blocks' virtual memory reached through the allocator's own pointers (rw_ptr()/rx_ptr()/_mapping/virt_mem):
+       fill patterns, unmapping.  Bytes reached through a caller's Span are owned by that caller and are not this cell. *)
+    ("JitAllocatorBlock", "<jit memory>") ].
 
 Definition find_prefix (p : string) (eps : list (string * sk)) : option sk :=
   match filter (fun e => String.prefix p (fst e)) eps with (_, s) :: _ => Some s | [] => None end.
@@ -245,6 +254,7 @@ Inductive exec : sk -> list ev -> bool -> Prop :=
 | X_rd : forall fn cls fld o v, is_shared cls = true -> exec (SAcc fn cls fld R) [ERd o (cls, fld) v] false
 | X_wr : forall fn cls fld o v, is_shared cls = true -> exec (SAcc fn cls fld W) [EWr o (cls, fld) v] false
 | X_own : forall fn cls fld m, is_shared cls = false -> exec (SAcc fn cls fld m) [ETau] false
+| X_init : forall fn cls fld, exec (SAcc fn cls fld Ini) [ETau] false     (* fresh object: thread-local until published *)
 | X_glob : forall fn name m c, exec (SGlob fn name m c) [ETau] false
 | X_call : forall fn callee, exec (SCall fn callee) [ETau] false
 | X_raw : forall fn what e, exec (SRaw fn what) [e] false
@@ -274,6 +284,17 @@ Fixpoint wl (prot : field -> bool) (h : bool) (t : list ev) : option bool :=
 
 Definition prot_of (wr : list field) (f : field) : bool := mem_field f wr.
 
+(* what a thread does while it does NOT hold the lock: thread-local steps and reads of members that are never written *)
+Fixpoint unlocked_local (prot : field -> bool) (h : bool) (t : list ev) : bool :=
+  match t with
+  | [] => true
+  | EAcq :: t' => unlocked_local prot true t'
+  | ERel :: t' => unlocked_local prot false t'
+  | ERd _ f _ :: t' => (h || negb (prot f)) && unlocked_local prot h t'
+  | EWr _ _ _ :: t' => h && unlocked_local prot h t'
+  | ETau :: t' => unlocked_local prot h t'
+  end.
+
 (* a thread of the program: any sequence of calls of entry points *)
 Definition thread_trace (eps : list (string * sk)) (t : list ev) : Prop :=
   exists ts, Forall (fun t1 => exists name s fl, In (name, s) eps /\ exec s t1 fl) ts /\ t = concat ts.
@@ -289,7 +310,7 @@ Fixpoint default_trace (s : sk) : list ev * bool :=
   | SSkip => ([], false)
   | SRet => ([], true)
   | SAcc _ cls fld m =>
-      if is_shared cls then ([match m with R => ERd 0 (cls, fld) 0%Z | W => EWr 0 (cls, fld) 0%Z end], false) else ([ETau], false)
+      if is_shared cls then ([match m with R => ERd 0 (cls, fld) 0%Z | W => EWr 0 (cls, fld) 0%Z | Ini => ETau end], false) else ([ETau], false)
   | SGlob _ _ _ _ | SCall _ _ | SRaw _ _ => ([ETau], false)
   | SInl _ b => (fst (default_trace b), false)
   | SSeq a b => let ra := default_trace a in
